@@ -55,6 +55,9 @@ FIXED = [
     (['C13'], 'detect one-character text', 'consists of one UTF-16/UTF-32 character', 'BOM-less UTF-32 text of one character detected as UTF-16 (i + 4 < size)'),
     (['C03'], 'csv/exception/*Missing starting double-quotes* | csv/value/stream', 'quoted value when it was read repeatedly', 'CSV stream reader: a quoted cell ("116836", or one containing "") requested twice by key failed with "Missing starting double-quotes" or lost characters, because the in-place unescaping was applied again to the already unescaped bytes'),
     (['C03', 'C07'], 'msgpack/tail|value|exception after a partially read array', 'array and binary scopes left unread items', 'MsgPack: an array (or bin) member of which the object read fewer elements than stored (e.g. 0 of 4) left the reader inside the array; the next keyed request failed ("Unsupported key type" / false) and the data after the object was misread'),
+    (['C17', 'C05'], 'msgpack/validation-fields/*', 'MsgPack path of nested scopes contained garbage', 'MsgPack stream: validation error path of a member of a nested object showed bytes of later strings instead of the parent key ("/1/z/absent" for parent "A"), the parent key string_view referred to the reader buffer that is reused by the next string read'),
+    (['C17'], '*/validation-messages/* (Email)', 'Email validator accepted a domain part', 'Email() accepted "user@.com" (empty first label of the domain part)'),
+    (['C17'], '*/validation-messages/last-field-truncated-by-maxValidationErrors', 'maxValidationErrors cut the list of messages', 'with maxValidationErrors=N the N-th reported field carried only the message of its first failing validator (KeyValue(key, v, Required(), Range(...)) reported one of two)'),
 ]
 
 KNOWN = [
